@@ -121,6 +121,7 @@ class Interp:
         self.track_fd = False
         self._fdw = {}
         self.dyn_force = {}       # trait path -> implementor type string (specialisation of dyn dispatch)
+        self.context_sites = True
 
     # ------------------------------------------------------------------ run
 
@@ -402,6 +403,14 @@ class Interp:
         ev['site'] = self.site_of(fr)
         ev['ctx'] = self.ctx_of(st)
         self.cur_events.append(ev)
+
+    def site_term(self, st, fr):
+        """Identity of a call site *in its calling context*: values produced by a shared helper are distinct
+        objects when the helper is reached through different call sites."""
+        if not self.context_sites or len(st.frames) == 1:
+            return SITE(fr.key, fr.bb)
+        ctxs = '>'.join('%s:%d' % (f.key.rsplit('::', 1)[-1], f.bb) for f in st.frames[:-1])
+        return mk(('site', fr.key, 'bb%d' % fr.bb, ctxs))
 
     def site_of(self, fr):
         t = fr.body['blocks'][fr.bb]['term']
